@@ -391,7 +391,10 @@ def main():
                      "(** GENERATED on every run by harness/tools/schema: the finite statement over the regenerated tables. *)\n"
                      "From HV Require Import Base.Prelude C20.SchemaModel Gen.SchemaTables.\n\n"
                      "(** the tables agree row by row except on the recorded disagreements (C20-F1) of the groups not repaired yet *)\n"
-                     "Example tables_agree : tables_ok fixed_F1a fixed_F1b schema_tbl loader_tbl = true.\nProof. vm_compute. reflexivity. Qed.\n")
+                     "Example tables_agree : tables_ok fixed_F1a fixed_F1b schema_tbl loader_tbl = true.\nProof. vm_compute. reflexivity. Qed.\n\n"
+                     "(** ... and, the syntax of duration values (C20-F6) apart, without any wildcard or excused row *)\n"
+                     "Example tables_strict : strict_ok (erase_classes schema_tbl) (erase_classes loader_tbl) = true.\n"
+                     "Proof. vm_compute. reflexivity. Qed.\n")
     with open(out_probes, "w") as f:
         json.dump({"probes": probes(stbl, ltbl), "schema": stbl, "loader": ltbl}, f, indent=1)
 
